@@ -1,17 +1,22 @@
 """C01 — event onsets fall on the exact tick of their cumulative duration, drift-free.
 Theorems: coq/Props/C01.v over the scheduler model (coq/Sched/Model.v).  Correspondence: histories
 (ticks; schedule with quantize/delay; ticks; optional nudge; ticks) run on isobar's Timeline/Track and on the model
-inside Coq; long runs (> 10^6 ticks) included.  Oracle: closed form of the onset tick with exact fractions."""
+inside Coq; long runs (> 10^6 ticks) included.  Oracle: closed form of the onset tick with exact fractions.
+Widened histories (Sched/Retick.v, theorems C01_retick_* / C01_self_nudge): the resolution is re-configured between
+ticks (`timeline.ticks_per_beat = N`, once or twice, on and off the new grid), and events nudge their own track
+re-entrantly (from their action, from a track event callback, from Timeline.on_event_callback); driver
+harness/impl/c01_impl.py, model = run_segs over one configuration per segment, oracle = exact simulation of
+"first tick at or after start + exact sum" over the exact cumulative times of the ticks."""
 from common import *
 import sched_common as S
 import sched_gen as G
 from fractions import Fraction as F
-from math import ceil
+from math import ceil, gcd
 
 PROP = "C01"
 META = {
  "engine": "S-scheduler",
- "text": "Coq theorems (Props/C01.v) about the executable model of Track.tick/Timeline.tick (Sched/Model.v), for ALL tick lengths, all event streams with durations >= 1 tick (on or off the tick grid, finite or cyclic) and ALL run lengths (induction over the number of ticks, no bound): event k is performed exactly once, on the first tick at or after start + exact sum of the preceding durations; each onset depends only on that sum (no compounding of rounding); a nudge by x shifts every later onset to the first tick at or after the shifted time; Timeline/Track time after n ticks is n ticks. The model is tied to /repo on every run by a correspondence check: random histories at 9 resolutions incl. off-grid durations (0.1, 1/3, 5/7 ...), quantized/delayed starts, nudges, and runs of 1.2*10^6 ticks (quick) are executed on the real Timeline with a recording OutputDevice and inside Coq (vm_compute) on the model and compared call by call and tick by tick; an independent exact-fraction oracle judges every implementation trace.",
+ "text": "Coq theorems (Props/C01.v) about the executable model of Track.tick/Timeline.tick (Sched/Model.v), for ALL tick lengths, all event streams with durations >= 1 tick (on or off the tick grid, finite or cyclic) and ALL run lengths (induction over the number of ticks, no bound): event k is performed exactly once, on the first tick at or after start + exact sum of the preceding durations; each onset depends only on that sum (no compounding of rounding); a nudge by x shifts every later onset to the first tick at or after the shifted time; Timeline/Track time after n ticks is n ticks. The model is tied to /repo on every run by a correspondence check: random histories at 9 resolutions incl. off-grid durations (0.1, 1/3, 5/7 ...), quantized/delayed starts, nudges, and runs of 1.2*10^6 ticks (quick) are executed on the real Timeline with a recording OutputDevice and inside Coq (vm_compute) on the model and compared call by call and tick by tick; an independent exact-fraction oracle judges every implementation trace. Widened (Sched/Retick.v, RetickProofs.v; theorems C01_retick_onsets, C01_retick_two_segments, C01_self_nudge, C01_retick_timeline_time, about Timeline.tick itself on a single-track timeline): the tick length may change before EVERY tick (any schedule of resolutions) - tick times are the exact cumulative sums of the tick lengths, for the track and for the timeline - and every event may nudge its own track re-entrantly from inside its own performance: event k is performed on tick j iff tick j is the first tick at or after start + exact sum of the preceding durations and self-nudges. Correspondence strata: histories with one or two `timeline.ticks_per_beat = N` assignments between ticks (before/after scheduling, on and off the new grid, with API reads in between) and tracks whose events nudge their own track from an action / a track event callback / Timeline.on_event_callback, run on the real Timeline (harness/impl/c01_impl.py) and on the model (run_segs, one configuration per segment).",
  "note": "Trusted: Coq kernel+VM; the Python harness. Modelled, not verified: IEEE-754 rounding inside isobar (the model computes in exact integer units; round(x, 8) comparisons are exact on grids below 10^8 units per beat, Base/Round8.v) - agreement of the float implementation with the exact model is validated by the correspondence runs, including > 10^6-tick runs, not proved.",
 }
 
@@ -146,8 +151,522 @@ def oracle(sc, r):
     return True, ""
 
 
+# ---- widened histories: the resolution is re-configured during the run; events nudge their own track -------------------------
+HEADER_W = S.HEADER + "From Isobar Require Import Sched.Retick.\n"
+TPBS_W = [1, 7, 10, 24, 48, 96, 100, 480, 960, 1920]
+SEG_CAP = 1000         # ticks per segment
+
+
+def w_items(rng, durs, kinds):
+    """events of the measured track (index 'pos' in the cycle): a note 40+pos on channel 0, or an action running callback pos"""
+    items, labels = [], []
+    for i, (d, kd) in enumerate(zip(durs, kinds)):
+        if kd == "action":
+            items.append({"k": "action", "cb": i, "dur": d}); labels.append(["cb", i])
+        else:
+            items.append({"k": "note", "dur": d, "note": 40 + i, "amp": 64, "gate": [1, rng.choice([2, 4, 8])], "chan": 0})
+            labels.append(["on", 40 + i])
+    return items, labels
+
+
+def ticks_for(rng, beats_per_event, tpb, lo=3, hi=14):
+    return max(2, min(SEG_CAP, int(ceil(beats_per_event * rng.randint(lo, hi) * tpb)) + rng.randint(0, 3)))
+
+
+def split_with_nudge(rng, ops, main, tick_now, started_possible=True):
+    """insert one between-tick nudge of the measured track into a random tick block"""
+    blocks = [i for i, o in enumerate(ops) if o[0] == "tick" and o[1] >= 4 and any(p[0] == "schedule" for p in ops[:i])]
+    if not blocks:
+        return None
+    i = rng.choice(blocks)
+    n = ops[i][1]
+    a = rng.randint(2, n - 2)
+    tpb = tick_now(i)
+    tick = F(1, tpb)
+    x = rng.choice([tick, 2 * tick, F(1, 3), F(1, 10), F(1, 2), F(1), 3 * tick, -tick * rng.randint(0, 1)])
+    ops[i:i + 1] = [["tick", a], ["nudge", main, x], ["tick", n - a]]
+    return x
+
+
+def gen_retick(rng, tier):
+    """k0 ticks; [re-configure;] schedule; ticks; re-configure; ticks [; re-configure; ticks] - on or off the new grid"""
+    for _attempt in range(200):
+        ntp = 2 if rng.random() < 0.7 else 3
+        tpbs = [rng.choice(TPBS_W)]
+        while len(tpbs) < ntp:
+            t = rng.choice(TPBS_W)
+            if t != tpbs[-1]:
+                tpbs.append(t)
+        want_aligned = rng.random() < 0.55
+        early = rng.random() < 0.25            # the first change comes before the track is scheduled
+        coarse = min(tpbs)
+        ncyc = rng.randint(1, 5)
+        durs = G.durations_for(rng, coarse, ncyc)
+        cyclic = rng.random() < 0.75
+        avg = sum(durs) / ncyc
+        q = d = None
+        if want_aligned:
+            k0 = tpbs[0] * rng.choice([0, 0, 1, 2]) if tpbs[0] <= 200 else 0
+            if rng.random() < 0.3:
+                q = rng.choice([None, F(1), F(2)]); d = rng.choice([None, F(1), F(0)])
+        else:
+            k0 = rng.choice([0, 1, 3, rng.randint(0, 2 * min(tpbs[0], 200))])
+        ops = []
+        if k0:
+            ops.append(["tick", k0])
+        if rng.random() < 0.3:
+            ops.append(["probe"])
+        segs = list(tpbs)
+        if early:
+            ops.append(["set_tpb", segs[1]]); segs = segs[1:]
+            if rng.random() < 0.5:
+                ops.append(["probe"])
+        kinds = ["note"] * ncyc
+        items, labels = w_items(rng, durs, kinds)
+        if not cyclic:
+            reps = rng.randint(2, 8)
+            items, labels, durs_full = items * reps, labels * reps, durs * reps
+        else:
+            durs_full = durs
+        ops.append(G.sched_op(G.stream(items, cyclic, rng.choice(["scripted", "psequence", "pdict"])), q, d))
+        ok = True
+        for si, t in enumerate(segs):
+            if si > 0:
+                if rng.random() < 0.25:
+                    ops.append(["probe"])
+                ops.append(["set_tpb", t])
+            if want_aligned and si + 1 < len(segs):
+                step = t // gcd(t, segs[si + 1])
+                if step > SEG_CAP:
+                    ok = False; break
+                n = step * rng.randint(1, max(1, min(SEG_CAP // step, int(ceil(avg * 12 * t / step)))))
+            else:
+                n = ticks_for(rng, avg, t)
+            ops.append(["tick", n])
+        if not ok:
+            continue
+        tp_of_op = []
+        cur = tpbs[0]
+        for o in ops:
+            if o[0] == "set_tpb":
+                cur = o[1]
+            tp_of_op.append(cur)
+        nudged = None
+        if rng.random() < 0.25:
+            nudged = split_with_nudge(rng, ops, 0, lambda i: tp_of_op[i])
+        w = {"durs": durs_full, "cyclic": cyclic, "labels": labels, "selfx": [F(0)] * len(durs_full), "main": 0, "ops": ops, "tpb0": tpbs[0]}
+        sim = simulate(w)
+        if not sim["judged"]:
+            continue
+        if want_aligned != sim["aligned"]:
+            continue
+        if not sim["aligned"] and (q or d):
+            continue
+        if sum(1 for t, _ in sim["onsets"] if t >= sim["changes"][-1]) < 2 and _attempt < 150:
+            continue            # at least two events after the last re-configuration
+        sc = {"tpb": tpbs[0], "config": {}, "callbacks": [], "ops": ops, "grid": [F(1, t) for t in tpbs],
+              "meta": {"kind": "retick", "tpbs": tpbs, "early": early, "aligned": sim["aligned"], "durs": [str(x) for x in durs],
+                       "cyclic": cyclic, "q": str(q), "d": str(d), "nudge": None if nudged is None else str(nudged)}}
+        sc["_w"] = w
+        sc["_sim"] = sim
+        return sc
+    raise CheckError("gen_retick: no scenario in 200 attempts")
+
+
+def gen_selfnudge(rng, tier):
+    """a track whose events nudge that same track while they are being performed: from the action of an action event (in the
+    model), from a callback added with track.add_event_callback, from Timeline.on_event_callback"""
+    for _attempt in range(200):
+        tpb = rng.choice(G.TPBS)
+        tpbs = [tpb]
+        if rng.random() < 0.2:
+            t2 = rng.choice([t for t in TPBS_W if t != tpb]); tpbs.append(t2)
+        coarse = min(tpbs)
+        tick = F(1, coarse)
+        via = rng.choice(["action", "action", "track_cb", "timeline_cb"])
+        ncyc = rng.randint(1, 6)
+        durs = G.durations_for(rng, coarse, ncyc)
+        kinds = [("action" if rng.random() < 0.6 else "note") if via == "action" else "note" for _ in range(ncyc)]
+        if via == "action" and "action" not in kinds:
+            kinds[rng.randrange(ncyc)] = "action"
+        selfx = []
+        for dd, kd in zip(durs, kinds):
+            if via == "action" and kd != "action":
+                selfx.append(F(0)); continue
+            cands = [x for x in [tick, 2 * tick, F(1, 16), F(1, 10), F(1, 3), F(3, 10), -tick, -F(1, 20), -F(1, 3), F(0), F(1)]
+                     if dd + x >= tick]
+            selfx.append(rng.choice(cands))
+        if all(x == 0 for x in selfx):
+            continue
+        cyclic = rng.random() < 0.7
+        items, labels = w_items(rng, durs, kinds)
+        durs_full, selfx_full = durs, selfx
+        if not cyclic:
+            reps = rng.randint(2, 6)
+            items, labels, durs_full, selfx_full = items * reps, labels * reps, durs * reps, selfx * reps
+        k0 = rng.choice([0, 0, 1, 3, rng.randint(0, 2 * min(tpb, 100))])
+        ops = []
+        if k0:
+            ops.append(["tick", k0])
+        main = 0
+        if rng.random() < 0.25:
+            # another track, scheduled first, that plays along (its events run no callback of the measured track)
+            cd = G.durations_for(rng, coarse, rng.randint(1, 3))
+            citems = [{"k": "note", "dur": x, "note": 80 + i, "amp": 64, "gate": [1, 2], "chan": 1} for i, x in enumerate(cd)]
+            ops.append(G.sched_op(G.stream(citems, rng.random() < 0.5, "psequence"))); main = 1
+        ops.append(G.sched_op(G.stream(items, cyclic, rng.choice(["scripted", "psequence", "pdict"]))))
+        avg = (sum(durs) + sum(selfx)) / ncyc
+        for si, t in enumerate(tpbs):
+            if si > 0:
+                ops.append(["set_tpb", t])
+            ops.append(["tick", ticks_for(rng, max(avg, tick), t, 4, 24 if len(tpbs) == 1 else 12)])
+        tp_of_op = []
+        cur = tpbs[0]
+        for o in ops:
+            if o[0] == "set_tpb":
+                cur = o[1]
+            tp_of_op.append(cur)
+        nudged = None
+        if rng.random() < 0.2:
+            nudged = split_with_nudge(rng, ops, main, lambda i: tp_of_op[i])
+        callbacks = []
+        if via == "action":
+            for i, kd in enumerate(kinds):
+                callbacks.append({"raise": "none", "ops": [["nudge", main, selfx[i]]] if kd == "action" and (selfx[i] != 0 or rng.random() < 0.5) else []})
+        w = {"durs": durs_full, "cyclic": cyclic, "labels": labels, "selfx": selfx_full, "main": main, "ops": ops, "tpb0": tpbs[0]}
+        sim = simulate(w)
+        if not sim["judged"] or len(sim["onsets"]) < 3:
+            continue
+        sc = {"tpb": tpbs[0], "config": {}, "callbacks": callbacks, "ops": ops, "grid": [F(1, t) for t in tpbs],
+              "meta": {"kind": "self-nudge", "via": via, "tpbs": tpbs, "aligned": sim["aligned"], "durs": [str(x) for x in durs],
+                       "self_nudges": [str(x) for x in selfx], "kinds": kinds, "cyclic": cyclic, "main": main,
+                       "nudge": None if nudged is None else str(nudged)}}
+        if via != "action":
+            sc["self_nudge"] = {"via": via, "track": main, "by_pos": selfx}
+        sc["_w"] = w
+        sc["_sim"] = sim
+        return sc
+    raise CheckError("gen_selfnudge: no scenario in 200 attempts")
+
+
+def simulate(w):
+    """The property, executed with exact fractions.  The time of a tick is the exact sum of the lengths of the ticks before it
+    (one tick_duration per tick, at the resolution in force during that tick); the measured track's k-th event is performed on
+    the first tick at or after start + exact sum of the preceding durations + every nudge applied before it is performed
+    (between ticks, or by an earlier event of the track itself while it was being performed)."""
+    T, tick_len, prevT = F(0), F(1, w["tpb0"]), None
+    tickno = idx = created = 0
+    main = w["main"]
+    pending, started, start_T, due, k, muted = None, False, None, None, 0, False
+    durs, selfx, n = w["durs"], w["selfx"], len(w["durs"])
+    onsets, times, tick_of_idx, aligned, judged, changes = [], [], {}, True, True, []
+
+    def track_time():
+        return (T - start_T) if started else F(0)
+    for o in w["ops"]:
+        kind = o[0]
+        if kind == "tick":
+            for _ in range(o[1]):
+                if pending is not None and pending <= T:
+                    started, start_T, due, pending = True, T, T, None
+                if started and (w["cyclic"] or k < n) and due <= T:
+                    if not muted:
+                        onsets.append((tickno, k % n))
+                        due += selfx[k % n]
+                    due += durs[k % n]
+                    k += 1
+                    if due <= T:
+                        judged = False          # two events in one tick: outside the property's domain (durations >= 1 tick)
+                tick_of_idx[idx] = tickno
+                prevT = T
+                T += tick_len
+                tickno += 1
+                idx += 1
+        elif kind == "set_tpb":
+            times.append((idx, T, track_time()))
+            changes.append(tickno)
+            tick_len = F(1, o[1])
+            if (T * o[1]).denominator != 1 or (track_time() * o[1]).denominator != 1:
+                aligned = False
+        elif kind == "probe":
+            pass
+        else:
+            if kind == "schedule":
+                if created == main:
+                    q, d = o[2] or F(0), o[3] or F(0)
+                    if not q and not d:
+                        started, start_T, due = True, T, T
+                    else:
+                        pending = (q * ceil(T / q) if q else T) + d
+                created += 1
+            elif kind == "nudge" and o[1] == main:
+                if started:
+                    due += o[2]
+                    # a nudge that moves the next onset to or before the last tick that has already happened: "shifted by
+                    # exactly x" cannot be met by any scheduler; the property does not say what happens - not judged
+                    if prevT is not None and due <= prevT:
+                        judged = False
+            elif kind == "mute" and o[1] == main:
+                muted = True
+            elif kind == "unmute" and o[1] == main:
+                muted = False
+            idx += 1
+    times.append((idx, T, track_time()))
+    return {"onsets": onsets, "times": times, "tick_of_idx": tick_of_idx, "aligned": aligned, "judged": judged,
+            "finished": (not w["cyclic"]) and k >= n, "changes": changes}
+
+
+def snap_prediction(w):
+    """Known finding C01-retick-snap, for classification only (NOT the oracle): the pinned Timeline.tick / Track.tick keep their
+    clocks on the grid of the resolution in force, current_time = round((current_time + 1/tpb) * tpb) / tpb, so the first tick
+    after a change made at a time off the new grid is between half a tick and one and a half ticks long.  This mirrors that
+    float computation for an immediately started, unmuted track; None if the scenario has anything else."""
+    tpb = w["tpb0"]
+    T = 0.0
+    tickno = idx = created = 0
+    main = w["main"]
+    started, tc, nxt, k, finished = False, 0.0, None, 0, False
+    durs, selfx, n = w["durs"], w["selfx"], len(w["durs"])
+    onsets, times = [], []
+    for o in w["ops"]:
+        kind = o[0]
+        if kind == "tick":
+            for _ in range(o[1]):
+                if started and not finished:
+                    if round(tc, 8) >= round(nxt, 8):
+                        last = None
+                        while round(tc, 8) >= round(nxt, 8):
+                            if not w["cyclic"] and k >= n:
+                                finished = True; last = None
+                                break
+                            last = k % n
+                            nxt += float(durs[k % n]); k += 1
+                        if last is not None:
+                            onsets.append((tickno, last))
+                            if selfx[last] != 0:
+                                nxt += float(selfx[last])
+                    if not finished:
+                        tc = round((tc + 1.0 / tpb) * tpb) / tpb
+                T = round((T + 1.0 / tpb) * tpb) / tpb
+                tickno += 1; idx += 1
+        elif kind == "set_tpb":
+            times.append((idx, T, tc))
+            tpb = o[1]
+        elif kind == "probe":
+            pass
+        else:
+            if kind == "schedule":
+                if created == main:
+                    if o[2] or o[3]:
+                        return None
+                    started, nxt = True, tc
+                created += 1
+            elif kind == "nudge" and o[1] == main:
+                if started:
+                    nxt += float(o[2])
+            elif kind in ("mute", "unmute"):
+                return None
+            idx += 1
+    times.append((idx, T, tc))
+    return {"onsets": onsets, "times": times}
+
+
+def observed_w(sc, r):
+    sim = sc["_sim"]
+    ons = []
+    for i, calls, res, ids in r["obs"]:
+        for c in calls:
+            if (c[0] == "on" and c[3] == 0) or c[0] == "cb":
+                ons.append((sim["tick_of_idx"].get(i), [c[0], c[1]]))
+    return ons
+
+
+def times_match(w, got, want, tol=1e-9):
+    if len(got) != len(want):
+        return "Timeline.current_time read at %d points, expected %d" % (len(got), len(want))
+    for (gi, gt, gtr), (wi, wt, wtr) in zip(got, want):
+        if gi != wi:
+            return "operation index %r, expected %r" % (gi, wi)
+        if abs(gt - float(wt)) > tol:
+            return "Timeline.current_time = %r beats before operation %d, exact sum of the tick durations = %s = %r" % (gt, gi, wt, float(wt))
+        if wtr is not None and w["main"] < len(gtr) and abs(gtr[w["main"]] - float(wtr)) > tol:
+            return "Track.current_time = %r beats before operation %d, exact sum of the tick durations since its start = %s = %r" % (
+                gtr[w["main"]], gi, wtr, float(wtr))
+    return None
+
+
+def oracle_w(sc, r):
+    """judge the implementation's trace of a widened history; returns (ok, detail, known_snap)"""
+    w, sim = sc["_w"], sc["_sim"]
+    exp = [(t, w["labels"][pos]) for t, pos in sim["onsets"]]
+    ons = observed_w(sc, r)
+    track_alive = w["cyclic"]          # a finished track leaves the timeline and its clock stops: only the timeline's is judged then
+    want_times = [(i, t, tt if track_alive else None) for i, t, tt in sim["times"]]
+    detail = None
+    if ons != exp:
+        for j, (a, b) in enumerate(zip(ons + [None] * len(exp), exp + [None] * len(ons))):
+            if a != b:
+                detail = "event %d: performed (tick, what) = %r, exact onset (tick, what) = %r" % (j, a, b)
+                break
+    if detail is None:
+        detail = times_match(w, r["times"], want_times)
+    if detail is None:
+        return True, "", False
+    known = False
+    if not sim["aligned"]:
+        sp = snap_prediction(w)
+        if sp is not None:
+            sexp = [(t, w["labels"][pos]) for t, pos in sp["onsets"]]
+            stimes = [(i, t, tt if track_alive else None) for i, t, tt in sp["times"]]
+            known = ons == sexp and times_match(w, r["times"], stimes) is None
+    return False, detail, known
+
+
+def eff_stream(s, selfx):
+    """the stream as the model sees it when event callbacks (which the model does not have) nudge the track: by theorem
+    C01_self_nudge a self-nudge of x by event i is the same as event i lasting x longer (its notes keep their length)"""
+    out = dict(s)
+    out["items"] = [dict(e, eff=selfx[i % len(selfx)]) for i, e in enumerate(s["items"])]
+    return out
+
+
+def coq_event_w(ev):
+    if "eff" not in ev or ev["eff"] == 0:
+        return S.coq_event(ev)
+    assert ev["k"] == "note"
+    vs = lst(["mkVoice %s %s %s %s" % (zlit(n), optlit(a, zlit), zlit(c), optlit(g, zlit)) for n, a, c, g in S.voices_of(ev)])
+    return "REvent (mkEvent %s %s (KNote %s))" % (zlit(ev["dur"] + ev["eff"]), blit(ev.get("active", True)), vs)
+
+
+def coq_op_w(o):
+    if o[0] == "schedule":
+        _, s, q, d, count, rwd, name, replace = o
+        st = "(mkStream %s 0%%nat %s)" % (lst([coq_event_w(e) for e in s["items"]]), blit(s["cyclic"]))
+        return "OSchedule %s %s %s %s %s %s %s" % (st, S.oz(q), S.oz(d), S.oz(count), blit(rwd), S.oz(name), blit(replace))
+    return S.coq_op(o)
+
+
+def coq_segments(fsc):
+    """one (configuration, history) pair per stretch of operations between two re-configurations"""
+    sn = fsc.get("self_nudge")
+    segs, tpb, cur = [], fsc["tpb"], []
+    created = 0
+    for o in fsc["ops"]:
+        if o[0] == "probe":
+            continue
+        if o[0] == "set_tpb":
+            segs.append((tpb, cur)); tpb, cur = o[1], []
+            continue
+        if o[0] == "schedule":
+            if sn and created == sn["track"]:
+                o = [o[0], eff_stream(o[1], sn["by_pos"])] + list(o[2:])
+            created += 1
+        cur.append("hop (%s) %s" % (coq_op_w(o), zlit(o[1] if o[0] == "tick" else 1)))
+    segs.append((tpb, cur))
+    return lst(["seg %s %s" % (S.coq_config(dict(fsc, tpb=t)), lst(h)) for t, h in segs if h or len(segs) == 1])
+
+
+def agrees_term_w(fsc, obs):
+    return "agrees_segs %s %s" % (coq_segments(fsc), S.coq_expected(obs))
+
+
+def run_impl_w(run, scenarios, shards=12):
+    parts = [scenarios[i::shards] for i in range(shards) if scenarios[i::shards]]
+    outs = run.impl_parallel("c01_impl", [{"scenarios": p} for p in parts])
+    res = [None] * len(scenarios)
+    for si, out in enumerate(outs):
+        for j, r in enumerate(out["results"]):
+            res[si + j * shards] = r
+    return res
+
+
+def model_trace_w(run, fsc):
+    return run.coq_eval(HEADER_W, "sparse (run_segs %s tl0)" % coq_segments(fsc))
+
+
+def python_snippet_w(fsc):
+    return ("# replay against the repository: PYTHONPATH=/repo /venv/bin/python /verif/harness/impl/c01_impl.py  <<< "
+            "'{\"scenarios\": [<the scenario of this file>]}'   (or: ./check C01 --replay <this file>)")
+
+
+def check_widened(run):
+    rng = run.rng
+    n_each = 170 if run.tier == "quick" else 2500
+    scs = [gen_retick(rng, run.tier) for _ in range(n_each)] + [gen_selfnudge(rng, run.tier) for _ in range(n_each)]
+    fin = [G.finalize(strip(sc)) for sc in scs]
+    results = run_impl_w(run, fin)
+    skip = set()
+    for i, (sc, fsc, r) in enumerate(zip(scs, fin, results)):
+        run.count()
+        m = sc["meta"]
+        run.dist("kind." + m["kind"])
+        for t in m["tpbs"]:
+            run.dist("tpb.%d" % t)
+        if len(m["tpbs"]) > 1:
+            run.dist("retick.%s" % ("on-new-grid" if m["aligned"] else "off-new-grid"))
+            run.dist("retick.changes.%d" % (len(m["tpbs"]) - 1))
+            run.dist("retick.%s" % ("finer" if m["tpbs"][1] > m["tpbs"][0] else "coarser"))
+        if m.get("early"): run.dist("retick.before-scheduling")
+        if any(o[0] == "probe" for o in sc["ops"]): run.dist("retick.api-reads-between")
+        if m["kind"] == "self-nudge":
+            run.dist("self-nudge.via." + m["via"])
+            if any(x.startswith("-") for x in m["self_nudges"]): run.dist("self-nudge.negative")
+            if m["main"] == 1: run.dist("self-nudge.second-track")
+        if m.get("nudge"): run.dist("nudge")
+        if any(F(x).denominator != 1 for t in m["tpbs"] for x in [F(d) * t for d in m["durs"]]): run.dist("off-grid-durations")
+        if "driver_error" in r:
+            run.violation({"kind": "driver-error", "site": "Timeline"}, {"scenario": fsc, "observed": r}, found_input=True)
+            skip.add(i); continue
+        ok, detail, known = oracle_w(sc, r)
+        run.cov["oracle_evaluations"] += 1
+        if len(observed_w(sc, r)) >= 2:
+            run.nontrivial(json.dumps(fsc, sort_keys=True))
+        if not ok:
+            skip.add(i)
+            timey = detail.startswith("Timeline.current_time") or detail.startswith("Track.current_time")
+            kind = "retick-snap" if known else "retick-clock" if timey else "self-nudge-onset" if m["kind"] == "self-nudge" else "retick-onset"
+            if known: run.dist("retick.known-snap")
+            run.violation({"kind": kind, "site": "Track.tick" if kind != "retick-clock" else "Timeline.tick"}, {
+                "scenario": fsc, "meta": m, "observed": detail,
+                "oracle": "exact simulation of the property: tick times = exact cumulative sums of the tick durations; event k on the "
+                          "first tick at or after start + exact sum of the preceding durations and nudges",
+                "expected_onsets_head": [(t, sc["_w"]["labels"][p]) for t, p in sc["_sim"]["onsets"][:12]],
+                "observed_onsets_head": observed_w(sc, r)[:12], "times": r["times"],
+                "expected_times": [(i, str(t), str(tt)) for i, t, tt in sc["_sim"]["times"]], "python": python_snippet_w(fsc)})
+        if i % 97 == 0:
+            run.sample({"meta": m, "first_observations": r["obs"][:5]}, limit=8)
+    terms = []
+    for i, (fsc, r) in enumerate(zip(fin, results)):
+        if i in skip:
+            terms.append("true")
+        elif not S.obs_well_typed(r["obs"]):
+            terms.append("false")
+        else:
+            terms.append(agrees_term_w(fsc, r["obs"]))
+    bad = run.coq_failing(HEADER_W, terms, chunk=24)
+    if bad:
+        spent = set(run.coq_failing(HEADER_W, ["negb (out_of_fuel_segs %s)" % coq_segments(fin[i]) for i in bad], chunk=24))
+        keep = []
+        for j, i in enumerate(bad):
+            if j in spent:
+                run.discard("model-out-of-fuel")
+            else:
+                keep.append(i)
+        bad = keep
+    for i in bad:
+        doc = {"broken": "correspondence Sched/Model.v + Sched/Retick.v (run_segs) <-> isobar Timeline/Track on this history (the theorems "
+                         "C01_retick_* / C01_self_nudge of Props/C01.v no longer speak about this code)",
+               "scenario": fin[i], "meta": scs[i]["meta"], "observed": results[i].get("obs"), "python": python_snippet_w(fin[i])}
+        try:
+            doc["model"] = model_trace_w(run, fin[i])
+        except Exception as e:      # pragma: no cover
+            doc["model"] = "unavailable: %s" % e
+        run.violation({"kind": "correspondence-widened", "site": "Track.tick"}, doc, found_input=False)
+    return len(fin) - len(bad) - len(skip)
+
+
 def strip(sc):
-    return {k: v for k, v in sc.items() if k != "_o"}
+    return {k: v for k, v in sc.items() if k not in ("_o", "_w", "_sim")}
 
 
 def check(run):
@@ -188,21 +707,31 @@ def check(run):
             run.sample({"meta": sc["meta"], "first_observations": r["obs"][:6]})
     bad = S.model_disagreements(run, fin, results, chunk=24)
     run.cov["traces_validated_against_impl"] = len(fin) - len(bad)
+    run.cov["traces_validated_against_impl"] += check_widened(run)
     for i in bad:
         if i in bad_oracle:
             continue
         S.report_disagreement(run, fin[i], results[i], "correspondence", "Track.tick", {"meta": scs[i]["meta"]})
     run.cov["rule"] = ("one case = one history (ticks; schedule(q, d); ticks [; nudge; ticks]) of a track with a cycle of 1-6 durations "
-                       "(on/off grid) at one of 9 resolutions, or a > 10^6-tick run; distinct by scenario text; non-trivial = at least two note-ons performed")
+                       "(on/off grid) at one of 9 resolutions, or a > 10^6-tick run, or a widened history (resolution re-configured once or twice between "
+                       "ticks; events nudging their own track from an action / track callback / timeline callback); distinct by scenario text; "
+                       "non-trivial = at least two events performed")
     run.cov["long_runs"] = [{"tpb": t, "ticks": nt} for t, nt in longs]
 
 
 def replay(run, doc):
     fsc = doc["scenario"]
-    r = S.run_impl(run, [fsc], shards=1)[0]
-    bad = S.model_disagreements(run, [fsc], [r]) if "driver_error" not in r else [0]
+    widened = doc.get("meta", {}).get("kind") in ("retick", "self-nudge") or "self_nudge" in fsc or any(o[0] in ("set_tpb", "probe") for o in fsc["ops"])
+    if widened:
+        r = run_impl_w(run, [fsc], shards=1)[0]
+        bad = [0] if "driver_error" in r or not S.obs_well_typed(r["obs"]) else run.coq_failing(HEADER_W, [agrees_term_w(fsc, r["obs"])])
+    else:
+        r = S.run_impl(run, [fsc], shards=1)[0]
+        bad = S.model_disagreements(run, [fsc], [r]) if "driver_error" not in r else [0]
     print("replay: implementation/model agree:", not bad)
     if bad:
         print("implementation:", json.dumps(r.get("obs", r))[:1500])
-        print("model:", S.model_trace(run, fsc)[:1500])
+        print("model:", (model_trace_w(run, fsc) if widened else S.model_trace(run, fsc))[:1500])
+        if widened:
+            print("Timeline.current_time / Track.current_time read:", r.get("times"), " exact:", doc.get("expected_times"))
     return 1 if bad else 0
